@@ -1,5 +1,5 @@
 """C01 — shaping is total: no panic, abort or hang; output length bounded by max(64 n, 16384)."""
-import os, re, struct
+import os, re, struct, unicodedata
 import vlib, corpus, bufgen
 
 MODULE = "RbModel.Props.C01"
@@ -305,7 +305,8 @@ class Judge:
                 loc = re.sub(r"^.*/registry/src/[^/]+/", "", loc)      # <crate>-<version>/src/…
             else:
                 loc = re.sub(r"^.*/(src/)", r"\1", loc)
-            sig = f"panic {loc} {(m.group(3) if m else '')[:70]}"
+            msg = re.sub(r"the len is \d+ but the index is \d+", "the len is N but the index is M", m.group(3) if m else "")
+            sig = f"panic {loc} {msg[:70]}"
         elif reply.startswith("abort"):
             sig = f"abort ({reply}: {'stack overflow / signal' if '-' in reply else 'exit'})"
         elif reply == "timeout":
@@ -371,9 +372,11 @@ class Judge:
         for gid, g in order:
             ln, build, line, reply, stream = g["best"]
             head = f"{gid}: {g['what']} — {'; '.join(sorted(g['sites']))[:300]}" if g["what"] else g["sites"][0]
-            ctx.violation(f"shaping is not total — {head} [{g['cases']} cases, builds: {','.join(sorted(g['builds']))}]",
-                          {"stage": "search", "stream": stream, "build": build, "request": line, "observed": reply[:500],
-                           "signature": gid})
+            rp = {"stage": "search", "stream": stream, "build": build, "request": line, "observed": reply[:500], "signature": gid}
+            gm = re.search(r"@(\S*/c01fonts/xaat/\S+?\.ttf)@", line)
+            if gm and os.path.exists(gm.group(1)) and os.path.getsize(gm.group(1)) < 20000:
+                rp["font_hex"] = open(gm.group(1), "rb").read().hex()       # generated font: the replay is self-contained
+            ctx.violation(f"shaping is not total — {head} [{g['cases']} cases, builds: {','.join(sorted(g['builds']))}]", rp)
         for name, st in self.stats.items():
             ctx.note_search(name, st["cases"], st["nonempty"], ok=st["ok"], rejected=st["reject"], max_ms=st["max_ms"],
                             max_out=st["max_out"], within_factor_2_of_bound=st["limit_reached"], rule=RULES.get(name, ""))
@@ -401,6 +404,16 @@ RULES = {
                       "space / next to a consonant, virama, joiner, dotted circle, vowel sign, random character (22 templates) x a walk "
                       "through all 64 subsets of BOT, EOT, PRESERVE / REMOVE default ignorables, DO_NOT_INSERT_DOTTED_CIRCLE, "
                       "PRODUCE_UNSAFE_TO_CONCAT x directions l r t x cluster levels 0 1 2 x script given / guessed; both builds",
+    "extreme-clusters": "every family of request (corpus fonts: OpenType GSUB/GPOS, Arabic, Hangul, syllabic shapers, fonts without "
+                        "layout tables, AAT morx / kerx / trak fonts as they are and with an added `feat` table exposing every mapped AAT "
+                        "feature type; generated morx+feat fonts whose OpenType tags really switch subtables) x input cluster values "
+                        "drawn from {0, 1, u32::MAX, u32::MAX-1, 2^31, 2^31+-1, 0xFFFF, 0x10000} mixed with ordinary ones (all equal, "
+                        "ascending to / from an extreme, descending, single positions replaced, random, sorted; Hangul also generated jamo "
+                        "strings; syllabic texts also cut right after a virama) x 0-4 user features (common tags, the tags of the font's own "
+                        "GSUB / GPOS FeatureLists, the tags the AAT map knows, the tags the dedicated shaper allocates itself) whose "
+                        "range bounds come from the same set and from the input clusters +-1 (global, start == end, start > end, end == "
+                        "start + 1, overlapping) x 4 directions x 3 cluster levels; both builds; oracle: no panic / abort / hang, "
+                        "len <= max(64n,16384)",
     "long": "all corpus fonts x long texts (1 / 64k / 300k x one letter, base + up to 70k marks, conjuncts of 127..2000 consonants, "
             "64k default ignorables, mixed runs); monitors: crash, abort, CPU time of the request (60 s release / 600 s checked; a case "
             "above the limit is re-run at half the length and counts as a hang unless t(n) <= 5 t(n/2)), len <= max(64n,16384)",
@@ -546,6 +559,7 @@ def seed_lines():
         ("rb_custom/Linefont.ttf", ["w59206:40", "w33827:cd", "w53245:ba", "w30462:00", "w41887:a4"], f"{plain} 21f,61"),      # reverse chain coverage unwrap
         ("in-house/TRAK.ttf", ["w426:01"], "- - - 255 2 - - feff,5b4,200d,3164 41,42,43 ppem=0 ptem=1e9 mode=plan ser=1"),       # serialize pen accumulation (fixed)
         ("in-house/MORXTwentyeight.ttf", ["w2650:fffe"], f"{plain} 41,78,45,79,44,79,79 ser=1"),                           # morx ligature_idx u16 +=
+        ("in-house/55e2910dbc9ef5dd89f4e146e7e0152169545b6a.ttf", [], f"- - - 0 0 {tag_hex('pref')}:1:0:4294967295 - - d17,d4d ser=1"),   # indic final reordering: failed 'pref' candidate at the end of the syllable, info[len] (fixed)
         ("rb_custom/Rasa.subset1.otf", [], "l - - 64 1 - - - abc*65536"),                                                 # quadratic in a run of marks (2 s here, 88 s at 300k)
     ]
     for f, muts, rest in past:
@@ -737,6 +751,226 @@ def gsub_random_lines(r, nfonts):
             L.append(f"c01 {spec(p)} {cfg} {rle(text)} ser=1")
     return L
 
+# ---------------------------------------------------------------------------------------------------------
+# `extreme-clusters` (added after the seeded change C01f): input cluster values and feature ranges at the edges of u32
+
+U32M = 0xFFFFFFFF
+XVALS = [0, 1, U32M, U32M - 1, 0x80000000, 0x7FFFFFFF, 0x80000001, 0xFFFF, 0x10000]
+XDIRS = ["l", "r", "t", "b"]
+# OpenType tags the engines look at (GSUB/GPOS fonts, the dedicated shapers, kern/kerx/trak switches)
+XTAGS_OT = ["liga", "kern", "calt", "ccmp", "mark", "mkmk", "curs", "init", "medi", "fina", "isol", "rlig", "clig", "locl", "smcp",
+            "frac", "numr", "dnom", "akhn", "rphf", "pref", "blwf", "half", "pstf", "abvs", "blws", "psts", "haln", "pres", "ljmo",
+            "vjmo", "tjmo", "vert", "rand", "aalt", "trak", "dist", "abvm", "blwm", "rtlm", "ltrm", "ss01", "zero"]
+
+# the tags the dedicated shapers allocate masks for themselves: a user feature of the same name changes which glyphs carry the mask
+XTAGS_FAMILY = {
+    "syllabic": ["nukt", "akhn", "rphf", "rkrf", "pref", "blwf", "abvf", "half", "pstf", "vatu", "cjct", "cfar", "init", "pres", "abvs",
+                 "blws", "psts", "haln", "locl", "ccmp"],
+    "arabic": ["init", "medi", "fina", "isol", "med2", "fin2", "fin3", "rlig", "calt", "mset", "stch", "ccmp", "locl", "rclt"],
+    "hangul": ["ljmo", "vjmo", "tjmo", "ccmp", "calt"],
+}
+
+XFAMILIES = ["ot", "arabic", "hangul", "syllabic", "fallback", "aat", "aat+feat", "aat-generated"]
+
+
+def extreme_clusters(r, n):
+    """input cluster values of n characters: u32 extremes mixed with ordinary values — all equal, ascending up to / descending
+    from an extreme, running index with some positions replaced, random draws, sorted draws. Returns (kind, list)."""
+    if n == 0:
+        return "empty", []
+    k = r.below(8)
+    e = r.choice(XVALS)
+    if k == 0:
+        return "all-equal", [e] * n
+    if k == 1:      # ascending, the last character (or the last two / all from some point on) sits exactly on the extreme
+        tail = r.choice([1, 1, 2, n])
+        cl = [max(0, e - (n - tail - i)) if i < n - tail else e for i in range(n)]
+        return "ascending-to-extreme", cl
+    if k == 2:      # descending from the extreme
+        head = r.choice([1, 1, 2])
+        cl = [e if i < head else max(0, e - (i - head + 1) * r.choice([1, 1, 3])) for i in range(n)]
+        return "descending-from-extreme", cl
+    if k == 3:      # ascending from the extreme, saturating at u32::MAX
+        return "ascending-from-extreme", [min(U32M, e + i) for i in range(n)]
+    if k == 4:      # ordinary numbering with 1-2 positions replaced by extremes (non-monotone)
+        cl = list(range(n))
+        for _ in range(r.range(1, 2)):
+            cl[r.below(n)] = r.choice(XVALS)
+        return "replaced", cl
+    if k == 5:
+        return "random", [r.choice(XVALS) if r.chance(1, 2) else r.below(2 * n + 1) for _ in range(n)]
+    cl = sorted(r.choice(XVALS) if r.chance(1, 2) else r.below(2 * n + 1) for _ in range(n))
+    if k == 6:
+        return "sorted-ascending", cl
+    return "sorted-descending", cl[::-1]
+
+
+def extreme_feats(r, tags, cl):
+    """1-4 user features (1 in 8: none) whose range bounds are u32 extremes or input cluster values (+-1): global, start == end,
+    start > end, end == start + 1, [0, x), [x, MAX], several features overlapping; values 0 / 1 / large"""
+    if r.chance(1, 8) or not tags:
+        return "-", "none"
+    pool = XVALS + sorted(set(cl)) + [min(U32M, c + 1) for c in set(cl)] + [max(0, c - 1) for c in set(cl)]
+    fs, kinds = [], set()
+    for _ in range(r.choice([1, 1, 2, 2, 3, 4])):
+        t = r.choice(tags)
+        a, b = r.choice(pool), r.choice(pool)
+        k = r.below(8)
+        if k == 0: a, b, kind = 0, U32M, "global"
+        elif k == 1: b, kind = a, "start=end"
+        elif k == 2: a, b, kind = max(a, b), min(a, b), "start>=end"
+        elif k == 3: b, kind = min(U32M, a + 1), "end=start+1"
+        elif k == 4: a, kind = 0, "from-0"
+        elif k == 5: b, kind = U32M, "to-max"
+        else: a, b, kind = min(a, b), max(a, b), "start<=end"
+        kinds.add(kind)
+        fs.append(f"{tag_hex(t)}:{r.choice([1, 1, 1, 0, 2, 65535, U32M])}:{a}:{b}")
+    if len(fs) > 1: kinds.add("several")
+    return ",".join(fs), "+".join(sorted(kinds))
+
+
+def text_family(cps):
+    if any(0x600 <= c <= 0x6ff or 0x750 <= c <= 0x77f or 0x8a0 <= c <= 0x8ff or 0x700 <= c <= 0x74f or 0x1800 <= c <= 0x18af for c in cps):
+        return "arabic"
+    if any(0x1100 <= c <= 0x11ff or 0xac00 <= c <= 0xd7af or 0xa960 <= c <= 0xa97f or 0xd7b0 <= c <= 0xd7ff for c in cps):
+        return "hangul"
+    if any(0x900 <= c <= 0xdff or 0x1000 <= c <= 0x109f or 0x1780 <= c <= 0x17ff or 0xf00 <= c <= 0xfff or 0x1a20 <= c <= 0x1aaf
+           or 0xa980 <= c <= 0xa9df or 0x1b00 <= c <= 0x1b7f or 0x11000 <= c <= 0x11fff or 0xaa00 <= c <= 0xaa5f for c in cps):
+        return "syllabic"
+    return None
+
+
+_tables = {}
+
+
+def font_tables(path):
+    if path not in _tables:
+        try:
+            _tables[path] = {x[0] for x in sfnt_dir(open(path, "rb").read())}
+        except OSError:
+            _tables[path] = set()
+    return _tables[path]
+
+
+_ftags = {}
+
+
+def layout_feature_tags(path):
+    """the feature tags of the font's own GSUB and GPOS FeatureLists (first face)"""
+    if path not in _ftags:
+        tags = set()
+        try:
+            data = open(path, "rb").read()
+            for t, _, o, l in sfnt_dir(data):
+                if t in ("GSUB", "GPOS") and l >= 10 and o + l <= len(data):
+                    fl = o + struct.unpack(">H", data[o + 6:o + 8])[0]
+                    if fl + 2 > o + l: continue
+                    n = struct.unpack(">H", data[fl:fl + 2])[0]
+                    for i in range(min(n, (o + l - fl - 2) // 6)):
+                        tg = data[fl + 2 + 6 * i:fl + 6 + 6 * i]
+                        if all(0x21 <= b < 0x7f for b in tg): tags.add(tg.decode("latin1"))
+        except (OSError, struct.error):
+            pass
+        _ftags[path] = sorted(tags)
+    return _ftags[path]
+
+
+def with_feat(path, feat_body):
+    """copy of an AAT corpus font with a `feat` table that exposes every AAT feature type the crate maps OpenType tags to"""
+    p = os.path.join(cache_dir(), "feat+" + os.path.basename(path))
+    body = add_table(open(path, "rb").read(), "feat", feat_body)
+    if not os.path.exists(p) or open(p, "rb").read() != body:
+        open(p, "wb").write(body)
+    return p
+
+
+def extreme_sources(shim, r, n_gen):
+    """family -> [(font spec path, index, code points, script or None, feature tags that reach the engine)]"""
+    import C15, C17
+    fm = C15.featmap(shim)
+    rows = {}
+    for _, ty, on, off in fm:
+        rows[ty] = max(rows.get(ty, 0), on + 1, off + 1)
+    rows[17] = max(rows.get(17, 0), 4)          # character alternatives (`aalt`)
+    feat_body = C17.build_feat([(ty, ns, ty in (17,)) for ty, ns in sorted(rows.items())])
+    aat_tags = sorted({t[0] for t in fm})
+    src = {f: [] for f in XFAMILIES}
+    for c in corpus.load():
+        if os.path.getsize(c.font) > 1_500_000: continue
+        tb = font_tables(c.font)
+        cps = [ord(ch) for ch in c.text][:24]
+        aat = bool(tb & {"morx", "kerx", "trak"})
+        if aat:
+            src["aat"].append((c.font, c.index, cps, c.script, XTAGS_OT[:8] + aat_tags))
+            if c.index == 0 and "morx" in tb and "feat" not in tb and os.path.getsize(c.font) < 400_000:
+                src["aat+feat"].append((with_feat(c.font, feat_body), 0, cps, c.script, aat_tags))
+            elif "feat" in tb:
+                src["aat+feat"].append((c.font, c.index, cps, c.script, aat_tags))
+            continue
+        fam = text_family(cps)
+        if fam:
+            src[fam].append((c.font, c.index, cps, c.script, XTAGS_OT))
+        elif tb & {"GSUB", "GPOS"}:
+            src["ot"].append((c.font, c.index, cps, c.script, XTAGS_OT))
+        else:
+            src["fallback"].append((c.font, c.index, cps, c.script, XTAGS_OT))
+    d = os.path.join(cache_dir(), "xaat")
+    os.makedirs(d, exist_ok=True)
+    for k in range(n_gen):
+        hexf, tags, _ = C15.aat_font(r, fm)
+        data = bytes.fromhex(hexf)
+        p = os.path.join(d, f"xaat-{k}.ttf")
+        if not os.path.exists(p) or open(p, "rb").read() != data:
+            open(p, "wb").write(data)
+        for _ in range(3):
+            cps = [0x61 + r.below(C17.NG - 1) for _ in range(r.range(1, 9))]
+            src["aat-generated"].append((p, 0, cps, None, tags + ["kern", "liga"]))
+    return src
+
+
+def extreme_lines(shim, r, per_family, n_gen, stat):
+    """`extreme-clusters`: every family of request x input cluster values at the edges of u32 x user-feature ranges at the same
+    edges x 4 directions x 3 cluster levels"""
+    src = extreme_sources(shim, r, n_gen)
+    L = []
+    i = 0
+    for fam in XFAMILIES:
+        cases = src[fam]
+        stat.setdefault("families", {})[fam] = {"sources": len(cases), "fonts": len({c[0] for c in cases})}
+        if not cases: continue
+        for _ in range(per_family * (4 if fam == "syllabic" else 1)):     # four shapers and ~50 scripts share this family
+            font, idx, cps, script, tags = r.choice(cases)
+            if fam in XTAGS_FAMILY and r.chance(1, 3):
+                tags = XTAGS_FAMILY[fam]
+            elif not fam.startswith("aat") and r.chance(1, 2):
+                tags = layout_feature_tags(font) or tags                # the features the font itself has
+            if fam == "hangul" and r.chance(1, 2):      # the corpus has three Hangul fixtures only: jamo / syllable / tone-mark strings
+                cps = [r.choice([r.range(0x1100, 0x1112), r.range(0x1161, 0x1175), r.range(0x11A8, 0x11C2), r.range(0xAC00, 0xD7A3),
+                                 0x302E, 0x302F, 0x115F, 0x1160]) for _ in range(r.range(1, 8))]
+            viramas = [i for i, c in enumerate(cps) if unicodedata.combining(chr(c)) == 9]
+            if viramas and r.chance(1, 3):              # a syllable left open at the end of the buffer: the text ends on a virama
+                e = r.choice(viramas) + 1
+                cps = cps[max(0, e - r.range(2, 6)):e]
+            elif r.chance(1, 4) and len(cps) > 1:
+                a = r.below(len(cps)); cps = cps[a:a + r.range(1, 6)]
+            kind, cl = extreme_clusters(r, len(cps))
+            feats, fkind = extreme_feats(r, tags, cl)
+            d = XDIRS[i % 4] if r.chance(5, 6) else "-"
+            level = (i // 4) % 3
+            i += 1
+            sc = script.strip() if script and len(script.strip()) == 4 and r.chance(1, 2) else "-"
+            flags = r.choice([0, 0, 0, 3, 0x40, 8, 0x10])
+            ex = ["ser=1"] + (["mode=plan"] if r.chance(1, 8) else []) + (["rep=1"] if r.chance(1, 8) else [])
+            L.append(f"c01 {spec(font, idx)} {d} {sc} - {flags} {level} {feats} - - {rle(cps)} "
+                     + "cl=" + ",".join(map(str, cl)) + " " + " ".join(ex))
+            for key in (f"clusters:{kind}", f"feats:{fkind}" if "+" not in fkind else "feats:several", f"dir:{d}", f"level:{level}"):
+                stat.setdefault("distribution", {})[key] = stat.setdefault("distribution", {}).get(key, 0) + 1
+            if U32M in cl: stat["with_cluster_u32max"] = stat.get("with_cluster_u32max", 0) + 1
+            if fam.startswith("aat") and U32M in cl and feats != "-" and any(x not in ("global", "start=end", "several") for x in fkind.split("+")):
+                stat["aat_ranged_feature_and_cluster_u32max"] = stat.get("aat_ranged_feature_and_cluster_u32max", 0) + 1
+    return L
+
+
 FILL_TABLES = ("hmtx", "vmtx", "hhea", "vhea", "OS/2", "VORG", "post", "kern", "GDEF")
 
 
@@ -853,6 +1087,9 @@ def run(ctx):
     run_sweep_syllabic(ctx, j, shim, ctx.rng("sweep-syllabic"), ctx.budget(4, 32), ctx.budget(200, 6000))
     run_both(j, "gsub-random", gsub_random_lines(ctx.rng("gsubrnd"), ctx.budget(500, 6000)), timeout=900)
     run_both(j, "glyph-metric", metric_lines(ctx.rng("metric"), shim, ctx.budget(2128, 2128)), timeout=900)
+    xstat = {}
+    run_both(j, "extreme-clusters", extreme_lines(shim, ctx.rng("extreme"), ctx.budget(1500, 20000), ctx.budget(80, 800), xstat), timeout=900)
+    ctx.cov["extreme_clusters"] = xstat
     run_both(j, "table-fill", fill_lines(ctx.rng("fill"), ctx.budget(150, 467)), timeout=900)
     run_both(j, "long", long_lines(ctx.rng("long"), ctx.budget(60, 467), ctx.budget(1, 3), ctx.budget([1, 65536], [1, 65536, 300000])),
              timeout=ctx.budget(900, 3000), nproc=8)
@@ -870,6 +1107,13 @@ def replay(ctx, rp):
             # generated fonts of sweep-syllabic live in a cache directory: rebuild them (they depend on the crate only)
             import syllabic
             for _ in syllabic.sweep_batches(vlib.build_harness(), vlib.Rng(1, "replay"), 0, 1, [], rle, {}): pass
+        m = re.search(r"@(\S*/c01fonts/xaat/\S+?\.ttf)@", rp["request"])
+        if m and "font_hex" in rp:
+            os.makedirs(os.path.dirname(m.group(1)), exist_ok=True)
+            open(m.group(1), "wb").write(bytes.fromhex(rp["font_hex"]))
+        m = re.search(r"@(\S*/c01fonts/feat\+\S+?)@", rp["request"])
+        if m and not os.path.exists(m.group(1)):
+            extreme_sources(vlib.build_harness(), vlib.Rng(1, "replay"), 0)      # corpus fonts + feat: deterministic copies
         exe = vlib.build_harness(rp["build"])
         o = vlib.run_lines(exe, [rp["request"]], nproc=1, timeout=1800)[0]
         print("build  :", rp["build"]); print("request:", rp["request"][:1500]); print("reply  :", o[:600])
